@@ -208,7 +208,49 @@ def rejection_table():
                 obs.append(Ob(f"print_kauri_tree[splits={list(seq)},features={list(feats)},{ln} names]: "
                               + ("accepted" if ln >= need else "rejected (fewer names than the largest used feature index + 1)"),
                               PROVED if ok else REFUTED, "enumeration", "P", {"exception": repr(e), "replayed": True}, fn=fn))
+    # deep trees (any depth is in scope): a chain of 14 splits and a mixed tree of depth 12, printed completely and read back
+    rs = np.random.RandomState(0)
+    for tag, seq in (("chain of 14 right-child splits (depth 14)", [0] + [2 * j for j in range(1, 14)]),
+                     ("chain of 12 left-child splits with side branches (depth 12)", [0] + [2 * j - 1 for j in range(1, 12)] + [2, 4])):
+        feats = [j % 3 for j in range(len(seq))]
+        thr = [float(v) for v in np.round(rs.normal(size=len(seq)), 3)]
+        bad = None
+        try:
+            t = build_tree(seq, feats, thr)
+            buf = io.StringIO()
+            with contextlib.redirect_stdout(buf):
+                KA.print_kauri_tree(fitted_model(t), ["a", "b", "c"])
+            pt = PrintedTree(buf.getvalue())
+            pts = rs.normal(size=(200, 3)) * 1.5
+            want = t.predict(pts)
+            for x, w in zip(pts, want):
+                node = pt.root
+                while node[0] == "rule":
+                    node = node[3] if x[{"a": 0, "b": 1, "c": 2}[node[1]]] <= float(node[2]) else node[4]
+                if node[1] != int(w) and bad is None:
+                    bad = {"x": x.tolist(), "read back": node[1], "predict": int(w)}
+        except Exception as e:
+            bad = {"exception": repr(e)[:200], "depth": max(KA.Tree.get_depth(t)) if False else None}
+        obs.append(Ob(f"print_kauri_tree[{tag}]: the whole tree is printed; read back on 200 points it gives the cluster predict assigns",
+                      PROVED if bad is None else REFUTED, "enumeration", "P", dict(bad or {}, replayed=bad is not None), fn=fn))
     from sklearn.exceptions import NotFittedError
+    # a fit that raises on its input leaves no printable / predicting model behind
+    for tag, Xbad in (("NaN data", np.array([[0., 1.], [np.nan, 2.], [1., 1.]])), ("1-D data", np.arange(5.)), ("text data", np.array([["a", "b"], ["c", "d"]]))):
+        m = KA.Kauri()
+        try:
+            m.fit(Xbad)
+            raised = False
+        except Exception:
+            raised = True
+        e1 = runs(m, None)
+        try:
+            m.predict(np.zeros((2, 2)))
+            e2 = None
+        except Exception as ex:
+            e2 = ex
+        obs.append(Ob(f"print_kauri_tree[Kauri after a fit that raised on {tag}] is refused, and predict raises",
+                      PROVED if raised and e1 is not None and e2 is not None else REFUTED, "enumeration", "P",
+                      {"fit raised": raised, "print": repr(e1)[:80], "predict": repr(e2)[:80], "replayed": True}, fn=fn))
     e = runs(KA.Kauri(), None)
     obs.append(Ob("print_kauri_tree[unfitted Kauri] raises NotFittedError", PROVED if isinstance(e, NotFittedError) else REFUTED, "enumeration", "P",
                   {"exception": repr(e), "replayed": True}, fn=fn))
